@@ -95,7 +95,7 @@ func sidauthProfile() chain.Profile {
 	p.PayAcc = map[string]string{"d1": "a07", "d2": "a08", "s1": "a09", "s2": "a10"}
 	p.Sids = map[string]string{"s1": "a09", "s2": "a10"}
 	p.Weights = map[string]int{"Blocks": 12, "StoreNew": 10, "StoreUpdate": 14, "Complete": 24, "Cancel": 3, "Terminate": 6,
-		"Renew": 6, "Claim": 2, "Permission": 12, "StoreForeign": 6, "StoreSponsored": 4, "SidBind": 5, "SidRotate": 5}
+		"Renew": 6, "Claim": 2, "Permission": 12, "StoreForeign": 6, "StoreSponsored": 4, "SidBind": 5, "SidRotate": 5, "Ready": 8, "CancelAny": 3}
 	p.Adversarial = 40
 	return p
 }
@@ -115,6 +115,7 @@ func rewardProfile() chain.Profile {
 	p.Timeouts = []int64{20, 1800}
 	p.MaxData = 2
 	p.ShortBlocks = true
+	p.MaxUnits = 10 // a block reward of 2520 splits exactly (to 1/1000 coin) over 1..10 capacity units
 	return p
 }
 
@@ -123,7 +124,14 @@ func cfgFor(profile string, i int) map[string]interface{} {
 	if profile == "fault" {
 		return map[string]interface{}{"fishmen": []string{"a05", "a06"}}
 	}
+	if profile == "poorreward" {
+		return map[string]interface{}{"blockReward": []int64{6, 12, 3}[i%3], "baseline": 0}
+	}
 	if profile == "scarce" {
+		if i%2 == 1 {
+			// providers that do not re-declare their status within 400 blocks are taken offline by the node end-blocker
+			return map[string]interface{}{"vstorThreshold": 1000000, "offlineTrigger": 400}
+		}
 		return map[string]interface{}{"vstorThreshold": 1000000}
 	}
 	if profile == "reward" {
@@ -131,7 +139,11 @@ func cfgFor(profile string, i int) map[string]interface{} {
 			// below the baseline: the per-block reward is capped by pledged * apy / (halving/2)
 			return map[string]interface{}{"blockReward": 840, "baseline": 1000, "apy": "600", "halvingPeriod": 20}
 		}
-		return map[string]interface{}{"blockReward": 840, "baseline": 0}
+		if i%3 == 1 {
+			// the per-block reward statistics are rolled over every 11 blocks (the smallest period the params accept)
+			return map[string]interface{}{"blockReward": 2520, "baseline": 0, "adjustPeriod": 11}
+		}
+		return map[string]interface{}{"blockReward": 2520, "baseline": 0}
 	}
 	return nil
 }
@@ -187,6 +199,18 @@ func poorProfile() chain.Profile {
 	return p
 }
 
+// poorrewardProfile: the poor profile on a chain that mints a small block reward: claims by providers in debt (the reward
+// repays recorded debt first), several claims in a row; short block steps keep the reward arithmetic exact.
+func poorrewardProfile() chain.Profile {
+	p := poorProfile()
+	p.Name = "poorreward"
+	p.Weights = map[string]int{"Blocks": 18, "StoreNew": 8, "Complete": 30, "Renew": 16, "Migrate": 4, "Claim": 16, "Terminate": 2,
+		"Drain": 5, "Refill": 1}
+	p.Caps = []int64{1000000, 2000000}
+	p.ShortBlocks = true
+	return p
+}
+
 // scarceProfile: few providers, high replica counts, short timeouts and mostly silent providers:
 // the timeout machinery re-assigns, partially re-assigns, gives up and refunds.
 func scarceProfile() chain.Profile {
@@ -195,7 +219,7 @@ func scarceProfile() chain.Profile {
 	p.Nodes = []string{"a01", "a02", "a03", "a04"}
 	p.LateNodes = []string{"a05"}
 	p.Weights = map[string]int{"Blocks": 40, "StoreNew": 10, "StoreUpdate": 3, "Complete": 12, "Cancel": 4, "Terminate": 1,
-		"Renew": 2, "Claim": 3, "CreateLate": 2, "Reset": 3, "RemoveVstorage": 2, "AddVstorage": 2, "SuperCycle": 5}
+		"Renew": 2, "Claim": 3, "CreateLate": 2, "Reset": 3, "RemoveVstorage": 2, "AddVstorage": 2, "SuperCycle": 5, "StoreSponsored": 5}
 	p.Staking = true // with a low capacity threshold (cfgFor): some providers are super nodes when orders are re-assigned
 	p.Sizes = []int64{1000, 10000}
 	p.Durs = []int64{3600, 7200}
@@ -246,6 +270,8 @@ func profileByName(n string) chain.Profile {
 		return faultProfile()
 	case "poor":
 		return poorProfile()
+	case "poorreward":
+		return poorrewardProfile()
 	case "did":
 		p := payProfile()
 		p.Name = "did"
@@ -578,6 +604,11 @@ func cmdReplica(args []string) {
 			if *mode == "full" {
 				emit(StepOut{Step: i, Op: "simulate", Note: r.Simulate(st.Tx)})
 			}
+		case "setround":
+			// compensation for the known export gap (the super-node cursor is not part of x/node's genesis): the cursor
+			// is put back by hand so that the REST of an imported chain's behaviour can still be compared
+			r.SetNodeRound(st.N)
+			emit(StepOut{Step: i, Op: "setround"})
 		case "sleep":
 			if *mode == "full" {
 				time.Sleep(time.Duration(st.Ms) * time.Millisecond)
